@@ -537,7 +537,11 @@ func (vm *VM) endMacro(call callFrame, fn *Function, r *renderer) {
 
 func (vm *VM) finalize(regs [][2]int8) {
 	for _, reg := range regs {
-		vm.setFromReflectValue(reg[1], vm.generalIndirect(reg[0]))
+		// The destination register depends on the type of the variable, not
+		// on the dynamic type of its value: the variable itself is read,
+		// not its value as generalIndirect returns it.
+		v := vm.regs.general[vm.fp[3]+Addr(reg[0])].Elem()
+		vm.setFromReflectValue(reg[1], v)
 	}
 }
 
